@@ -70,6 +70,7 @@ class C28(SchedProp):
     props_modules = ['CylcModel.Props.C28']
     theorems = [
         'CylcModel.C28.triggered_is_marked',
+        'CylcModel.C28.triggered_again_is_not_requeued',
         'CylcModel.C28.triggered_submits_despite_hold_and_pause',
         'CylcModel.C28.submit_once_per_loop',
         'CylcModel.C28.live_start_member_left_alone',
